@@ -697,3 +697,133 @@ Example c20r_verdict_nonvacuous :
   c20r_verdict default_wording default_wording_plain [109;121;32;114;117;108;101;115;47;114;46;116;115;103] exB_tsg [115;114;99;47;233;46;112;121] [112;97;115;115;10] exB_chain (real ++ [32]) plain = 61 /\
   c20r_verdict default_wording default_wording_plain [109;121;32;114;117;108;101;115;47;114;46;116;115;103] exB_tsg [115;114;99;47;233;46;112;121] [112;97;115;115;10] exB_chain real (32 :: plain) = 62.
 Proof. vm_compute. repeat split. Qed.
+
+(* ================================================================================================================
+   END TO END: from a run of the execution model to the text.  `chain_of_error` (Model/ErrChain.v) maps the model's
+   error value to the chain that is rendered; the texts the execution model does not have are ARGUMENTS (arbitrary
+   functions, nothing is assumed about them): stmt_text (Display of the statement at a location), cause_text (Display of
+   the innermost error), node_kind / node_pos (kind and start position of a node index), other_msg (message of the
+   Context::Other at an entry).  Stream C20r checks on every failing run that `chain_of_error` of the MODEL's error,
+   with node kind/position from the recorded tree, is the chain read off the REAL error (code 65).
+
+   cites3 tp sp out sl zl pl := out contains "tp:row+1:col+1:" for sl and for zl and "sp:row+1:col+1:" for pl;
+   shows3 tsg src out sl zl pl := for each of the three rows that is a line of tsg (sl, zl) resp. src (pl), the text of
+   that line occurs in out. *)
+From TSG Require Import Model.ErrChain Proofs.ErrChain.
+
+(* any model error, any statement context in it (any depth; both statements of a conflict) *)
+Theorem error_rendering_cites_all : forall stmt_text cause_text node_kind node_pos other_msg w tsg_path tsg src_path src e c,
+  In c (err_stmt_ctxs e) ->
+  let out := render_pretty w tsg_path tsg src_path src (chain_of_error stmt_text cause_text node_kind node_pos other_msg e) in
+  cites3 tsg_path src_path out (sc_stmt c) (sc_stanza c) (node_pos (sc_node c)) /\
+  shows3 tsg src out (sc_stmt c) (sc_stanza c) (node_pos (sc_node c)).
+Proof.
+  intros st ct nk np om w tp t sp s e c H. split; [apply chain_cites_lemma|apply chain_shows_lemma]; exact H.
+Qed.
+
+(* STRICT: the text rendered for the error of a run cites a statement s' of the stanza of an EXECUTED (stanza, match)
+   block (the innermost statement that failed: strict_file_error_stmt_loc), that stanza's location and the position
+   of the block's full-match node *)
+Theorem strict_error_rendering_cites : forall {rx : Type} t fl cfg glob (regexes : list rx) find call fuel sts ms s p e
+    stmt_text cause_text node_kind node_pos other_msg w tsg_path tsg src_path src,
+  call_errors_base call ->
+  exec_file t fl cfg glob regexes find call fuel sts ms s p = Err e ->
+  (exists l, e = ECancelled l) \/
+  exists st m, In (st, m) (blocks sts ms) /\
+    match nodes_for_capture m (st_full_stanza_idx st) with
+    | n :: _ =>
+        exists s', stmt_in st s' /\
+          cites3 tsg_path src_path
+                 (render_pretty w tsg_path tsg src_path src (chain_of_error stmt_text cause_text node_kind node_pos other_msg e))
+                 (stmt_loc s') (st_start st) (node_pos n)
+    | [] => False
+    end.
+Proof.
+  intros rx t fl cfg glob regexes find call fuel sts ms s p e st ct nk np om w tp tsg sp src Hc H.
+  destruct (@strict_file_error_loc_lemma rx t fl cfg glob regexes find call fuel sts ms s p e Hc H) as [Hl|(sz & m & Hin & Hm)]; [left; exact Hl|].
+  right. exists sz, m. split; [exact Hin|].
+  destruct (nodes_for_capture m (st_full_stanza_idx sz)) as [|n rest]; [exact Hm|].
+  destruct Hm as (s' & e0 & e1 & Hs & -> & _ & _). exists s'. split; [exact Hs|].
+  exact (chain_cites_lemma st ct nk np om w tp tsg sp src _ _ (outer_in _ _ _ (in_eq _ _))).
+Qed.
+
+Theorem strict_error_rendering_shows_lines : forall {rx : Type} t fl cfg glob (regexes : list rx) find call fuel sts ms s p e
+    stmt_text cause_text node_kind node_pos other_msg w tsg_path tsg src_path src,
+  call_errors_base call ->
+  exec_file t fl cfg glob regexes find call fuel sts ms s p = Err e ->
+  (exists l, e = ECancelled l) \/
+  exists st m, In (st, m) (blocks sts ms) /\
+    match nodes_for_capture m (st_full_stanza_idx st) with
+    | n :: _ =>
+        exists s', stmt_in st s' /\
+          shows3 tsg src
+                 (render_pretty w tsg_path tsg src_path src (chain_of_error stmt_text cause_text node_kind node_pos other_msg e))
+                 (stmt_loc s') (st_start st) (node_pos n)
+    | [] => False
+    end.
+Proof.
+  intros rx t fl cfg glob regexes find call fuel sts ms s p e st ct nk np om w tp tsg sp src Hc H.
+  destruct (@strict_file_error_loc_lemma rx t fl cfg glob regexes find call fuel sts ms s p e Hc H) as [Hl|(sz & m & Hin & Hm)]; [left; exact Hl|].
+  right. exists sz, m. split; [exact Hin|].
+  destruct (nodes_for_capture m (st_full_stanza_idx sz)) as [|n rest]; [exact Hm|].
+  destruct Hm as (s' & e0 & e1 & Hs & -> & _ & _). exists s'. split; [exact Hs|].
+  exact (chain_shows_lemma st ct nk np om w tp tsg sp src _ _ (outer_in _ _ _ (in_eq _ _))).
+Qed.
+
+(* LAZY (whole run): unless the error is raised by check_globals before any stanza runs or is the cancellation, it has
+   one context, or two for a conflict, and for EACH context c: c is valid (the stanza location and first full-match
+   node of an executed (stanza, match) pair and the location of a statement of that stanza: `valid_ctx`, see above)
+   and the rendered text cites its statement, its stanza and the position of its node *)
+Theorem lazy_error_rendering_cites : forall {rx : Type} t fl cfg supplied budget (regexes : list rx) find call fuel ms g0 e
+    stmt_text cause_text node_kind node_pos other_msg w tsg_path tsg src_path src,
+  call_errors_base call ->
+  run_lazy t fl cfg supplied budget regexes find call fuel ms g0 = Err e ->
+  check_globals (f_globals fl) (globals_nested supplied) = Err e \/
+  (exists l, e = ECancelled l) \/
+  exists cs e0, e = EInContext (CtxStmts cs) e0 /\ (length cs = 1 \/ length cs = 2)%nat /\
+    Forall (fun c => valid_ctx fl ms c /\
+                     cites3 tsg_path src_path
+                            (render_pretty w tsg_path tsg src_path src (chain_of_error stmt_text cause_text node_kind node_pos other_msg e))
+                            (sc_stmt c) (sc_stanza c) (node_pos (sc_node c))) cs.
+Proof.
+  intros rx t fl cfg supplied budget regexes find call fuel ms g0 e st ct nk np om w tp tsg sp src Hc H.
+  destruct (@run_lazy_error_valid_lemma rx t fl cfg supplied budget regexes find call fuel ms g0 e Hc H) as [Hg|[Hl|(cs & e0 & -> & _ & Hlen & Hv)]];
+    [left; exact Hg|right; left; exact Hl|].
+  right. right. exists cs, e0. split; [reflexivity|]. split; [exact Hlen|].
+  apply Forall_forall. intros c Hin. split; [exact (proj1 (Forall_forall _ _) Hv c Hin)|].
+  exact (chain_cites_lemma st ct nk np om w tp tsg sp src _ _ (outer_in _ _ _ Hin)).
+Qed.
+
+Theorem lazy_error_rendering_shows_lines : forall {rx : Type} t fl cfg supplied budget (regexes : list rx) find call fuel ms g0 e
+    stmt_text cause_text node_kind node_pos other_msg w tsg_path tsg src_path src,
+  call_errors_base call ->
+  run_lazy t fl cfg supplied budget regexes find call fuel ms g0 = Err e ->
+  check_globals (f_globals fl) (globals_nested supplied) = Err e \/
+  (exists l, e = ECancelled l) \/
+  exists cs e0, e = EInContext (CtxStmts cs) e0 /\ (length cs = 1 \/ length cs = 2)%nat /\
+    Forall (fun c => valid_ctx fl ms c /\
+                     shows3 tsg src
+                            (render_pretty w tsg_path tsg src_path src (chain_of_error stmt_text cause_text node_kind node_pos other_msg e))
+                            (sc_stmt c) (sc_stanza c) (node_pos (sc_node c))) cs.
+Proof.
+  intros rx t fl cfg supplied budget regexes find call fuel ms g0 e st ct nk np om w tp tsg sp src Hc H.
+  destruct (@run_lazy_error_valid_lemma rx t fl cfg supplied budget regexes find call fuel ms g0 e Hc H) as [Hg|[Hl|(cs & e0 & -> & _ & Hlen & Hv)]];
+    [left; exact Hg|right; left; exact Hl|].
+  right. right. exists cs, e0. split; [reflexivity|]. split; [exact Hlen|].
+  apply Forall_forall. intros c Hin. split; [exact (proj1 (Forall_forall _ _) Hv c Hin)|].
+  exact (chain_shows_lemma st ct nk np om w tp tsg sp src _ _ (outer_in _ _ _ Hin)).
+Qed.
+
+(* non-vacuity: the chain of a model error (statement context around a Context::Other around the base error), with
+   concrete texts, and what its rendering cites (node 7 at position (7, 1)) and does not cite *)
+Example c20_end_to_end_nonvacuous :
+  let e := EInContext (CtxStmts [{| sc_stmt := (3, 2); sc_stanza := (0, 0); sc_node := 7 |}]) (EInContext CtxOther EExpectedGraphNode) in
+  let ch := chain_of_error (fun _ => [83]) (fun b => [48 + error_code b]) (fun _ => [75]) (fun n => (n, 1)) (fun i => [48 + i]) e in
+  let out := render_pretty default_wording [114] [] [115] [] ch in
+  ch = {| ch_ctxs := [RStmts [{| sx_stmt := [83]; sx_stmt_loc := (3, 2); sx_stanza_loc := (0, 0); sx_src_loc := (7, 1); sx_kind := [75] |}];
+                      ROther [49]];
+          ch_cause := [56] |} /\
+  err_stmt_ctxs e = [{| sc_stmt := (3, 2); sc_stanza := (0, 0); sc_node := 7 |}] /\
+  contains (cite [114] 3 2) out = true /\ contains (cite [114] 0 0) out = true /\ contains (cite [115] 7 1) out = true /\
+  contains (cite [115] 3 2) out = false.
+Proof. vm_compute. repeat split. Qed.
